@@ -14,7 +14,7 @@ RULE = ("case = (structured script incl. inline/block mixes, text (also multi-li
         "empty, xhtml/xml self-closing style): every line after the first starts with baseIndent + indent × (elements open at that point, minus one when the line "
         "starts with a closing tag) followed by a non-blank or nothing. Exhaustive layer: 40 fixed abbreviations × all 2^k settings of 6 boolean/enum options vs a "
         "baseline, incl. the xsl aliases var/vare/wp/pare with children/text under comments. Non-trivial: the two outputs differ as strings and the abbreviation has depth ≥ 2.")
-ASSUME = ["texts have no leading/trailing blanks on their lines and contain no `<`; comment templates are written in comment syntax (`<!-- … -->`) so that comment text is recognisable",
+ASSUME = ["texts have no leading/trailing blanks on their lines and contain no `<`; text-only items have children only when their text carries a field (then the children are printed in its place); comment templates are written in comment syntax (`<!-- … -->`) so that comment text is recognisable",
           "`>` is never written after a text-only item, a group or a self-closed element"]
 
 SYNTAXES = ['html', 'xml', 'xsl', 'jsx', 'vue', 'svelte']
@@ -170,7 +170,7 @@ def law_options():
 
 def script_strategy(syntax):
     names = G.NEUTRAL + G.STRUCT + ALIASES[syntax] * 2
-    p = G.P(names=names, nameless=0.15, mentions='simple', text=0.3, text_kind='simple', text_only=0.08, groups=0.15, max_items=8, max_depth=2, rep=0.25, rep_max=3, sc=0.08, max_nodes=80)
+    p = G.P(names=names, nameless=0.15, mentions='simple', text=0.3, text_kind='simple', text_only=0.12, groups=0.15, max_items=8, max_depth=2, rep=0.25, rep_max=3, sc=0.08, max_nodes=80, text_only_fields=0.5)
     def multiline(sc, which):
         # turn some simple texts into two-line texts
         n = [0]
